@@ -329,6 +329,10 @@ func SelectDimension(data any, dimensions []*IndexSelector) (any, error) {
 		return data, nil
 	}
 	index := dimensions[0]
+	array, ok := data.([]any)
+	if !ok {
+		return nil, EXPECTATION_FAILED.Extend(fmt.Sprintf("failed to select dimension. index selectors are not valid on %T type", data))
+	}
 	switch index.GetType() {
 	case RANGE:
 		{
@@ -339,16 +343,19 @@ func SelectDimension(data any, dimensions []*IndexSelector) (any, error) {
 			}
 			end := index[1]
 			if end == -1 {
-				end = len(data.([]any))
+				end = len(array)
 			}
-			return SelectDimension(data.([]any)[begin:end], dimensions[1:])
+			if begin > end || end > len(array) {
+				return nil, EXPECTATION_FAILED.Extend(fmt.Sprintf("failed to select dimension. range (%d:%d) is out of range", begin, end))
+			}
+			return SelectDimension(array[begin:end], dimensions[1:])
 		}
 	case INDEX:
 		{
 			index := index.GetIndex()
 			if index == -1 {
 				slice := make([]any, 0)
-				for _, item := range data.([]any) {
+				for _, item := range array {
 					rs, err := SelectDimension(item, dimensions[1:])
 					if err != nil {
 						return nil, err
@@ -357,7 +364,10 @@ func SelectDimension(data any, dimensions []*IndexSelector) (any, error) {
 				}
 				return slice, nil
 			}
-			return SelectDimension(data.([]any)[index], dimensions[1:])
+			if index >= len(array) {
+				return nil, EXPECTATION_FAILED.Extend(fmt.Sprintf("failed to select dimension. index %d is out of range", index))
+			}
+			return SelectDimension(array[index], dimensions[1:])
 		}
 	default:
 		{
